@@ -26,6 +26,7 @@ path  = [step]; step = ["a", name] | ["i", k] | ["b", k] | ["s", lo, hi]
                         | ["vi", expr] | ["vb", expr]
 stmt  = ["assign", path, expr] | ["tmp", name, expr (, [more names])] | ["if", cond, [stmt], [stmt]]
         | ["for", var, start, stop, step, [stmt]] | ["call", fname (, [arg e...])]   (emit only: C09)
+        | ["tmpset", name, lo, hi, expr]      name[lo:hi] = expr   (in-place update of a temporary)
 expr  = ["const", w, v] | ["int", v] | ["rd", path, w] | ["tmpv", name, w] | ["lv", name]
         | ["free", name, w|None] | ["bin", op, a, b] | ["shift", op, a, b] | ["inv", a]
         | ["cmp", op, a, b] | ["ife", c, a, b] | ["zext"|"sext"|"trunc", a, w]
